@@ -876,8 +876,13 @@ class CallMixin:
                 return self.hier.is_sub(v.t, n)
             if isinstance(v.s, Opaque) and n in self.spec.instances.get(v.s.oname, ()):
                 return True          # declared by the spec: values of this opaque sort are instances of that class
+            if isinstance(v.s, Opaque) and n in getattr(self.spec, "class_tests", {}).get(v.s.oname, ()):
+                # declared by the spec: membership in this class is a (deterministic) predicate of the value
+                return V(BOOL, ufunc("isinstance_" + n, v.s, BOOL)(v.t))
             return None
         rs = [one(n) for n in names]
+        if rs and all(r is not None for r in rs) and any(isinstance(r, V) for r in rs):
+            return S.Or(*[r if isinstance(r, V) else (S.TRUE if r else S.FALSE) for r in rs])
         if any(r is None for r in rs):
             if isinstance(v.s, Opt):
                 inner = self.isinstance_of(v.s.val(v), names)
